@@ -127,3 +127,30 @@ Theorem C07_insert_delete_never_panic_at_index_level :
     snd (rinsert_c (run b ops) t d) <> RPanic s /\ snd (rdelete_c (run b ops) t) <> RPanic s.
 Proof. exact reachable_ops_c_never_panic. Qed.
 Print Assumptions C07_insert_delete_never_panic_at_index_level.
+
+(* ---- Router::new: one `router.constraint::<T>().unwrap()` per built-in, in the order REGENERATED from src/router.rs;
+        Router::constraint fails exactly on a name that is already registered.  Replayed on the model from the empty
+        router, every one of these calls returns Ok (the names regenerated from src/constraints.rs are distinct) ---- *)
+From WF Require Import Gen.Tables Proofs.BuiltinsP.
+Theorem C07_router_new_unwraps_succeed :
+  length new_router_registrations = length gen_builtin_registered
+  /\ snd router_new_c = true
+  /\ map fst (r_constraints (fst router_new_c)) = map fst new_router_registrations.
+Proof. exact router_new_unwraps_ok. Qed.
+Print Assumptions C07_router_new_unwraps_succeed.
+
+(* ---- the tree printer at the level of its arithmetic (Model/DisplayC.v: the counter of children still to print,
+        `count -= 1` before every child of the seven lists, is an explicit subtraction that can return Panic) ---- *)
+From WF Require Import Model.Display Model.DisplayC Proofs.DisplayCP.
+Print go_c.
+Theorem C07_display_never_panics : forall n, display_c n = Ret (display n).
+Proof. exact display_c_refines. Qed.
+Print Assumptions C07_display_never_panics.
+
+(* ---- the inventory: every expression of the sources that can panic by itself (REGENERATED from /repo on this run:
+        Gen/Sites.v) is one the checked models and theorems above account for, by name (Proofs/SitesP.v) ---- *)
+From WF Require Import Gen.Sites Proofs.SitesP.
+Theorem C07_every_panic_capable_site_is_accounted_for :
+  sites_eqb gen_panic_sites expected_panic_sites = true.
+Proof. exact panic_sites_accounted_for. Qed.
+Print Assumptions C07_every_panic_capable_site_is_accounted_for.
